@@ -32,6 +32,14 @@ import (
 // ForEach of the outer one ("ephemeral") and are closed -- or, legally, simply
 // dropped -- inside the callback.
 
+// drainPools empties the sync.Pools (two collections: primary -> victim ->
+// gone), so that a script starts from the same pool state in the rapid run and
+// in a replay, whatever earlier cases left behind.
+func drainPools() {
+	runtime.GC()
+	runtime.GC()
+}
+
 // Step is one action of the script.
 type Step struct {
 	Act  string       `json:"act"`
@@ -307,6 +315,7 @@ func (m *machine) step(no int, s Step) error {
 
 // checkPool replays a script.
 func checkPool(c PoolCase) error {
+	drainPools()
 	m := &machine{}
 	for i, s := range c.Steps {
 		if (s.Act == "force" || s.Act == "close" || s.Act == "evaluate" || s.Act == "drop") && (s.Idx < 0 || s.Idx >= len(m.kept) || !m.kept[s.Idx].open) {
@@ -323,6 +332,7 @@ const maxOpenKept = 6
 
 func TestPoolStateMachine(t *testing.T) {
 	rapid.Check(t, func(t *rapid.T) {
+		drainPools()
 		m := &machine{}
 		var script []Step
 		record := func(failed bool) {
